@@ -71,10 +71,11 @@ func init() {
 			for _, hc := range cfgs {
 				hc.between = []string{"none", "arrive", "rebuy", "leave-busted", "blind-raise", "blind-break", "blind-resume", "setup-again", "start-again", "pause", "close", "release"}
 				hc.mid = []string{"none", "arrive", "blind-break", "blind-raise"}
+				hc.late = []string{"none", "close", "release", "pause", "blind-break", "arrive", "leave-live"}
 				hc.finish = []string{"all", "none", "first"}
 				hc.panicsAreDiagnostics = true
 			}
-			return histSuites("c07/", cfgs, bound, func(h *hist) []Monitor { return []Monitor{newMonC07(h)} })
+			return append(histSuites("c07/", cfgs, bound, func(h *hist) []Monitor { return []Monitor{newMonC07(h)} }), c07SchedSuites(tier)...)
 		},
 	})
 	register(&Check{
@@ -90,6 +91,7 @@ func init() {
 			for _, hc := range cfgs {
 				hc.between = []string{"none", "arrive", "sitout", "rebuy", "leave-busted", "leave-live", "blind-break"}
 				hc.mid = []string{"none", "arrive", "sitout"}
+				hc.late = []string{"none", "arrive", "leave-live", "rebuy"}
 				hc.finish = []string{"all", "none", "first"}
 			}
 			return histSuites("c08/", cfgs, bound, func(h *hist) []Monitor { return []Monitor{newMonC08(h, 1)} })
@@ -109,6 +111,7 @@ func init() {
 			for _, hc := range cfgs {
 				hc.between = []string{"none", "blind-raise", "blind-lower", "blind-ante", "blind-break", "blind-resume"}
 				hc.mid = []string{"none", "blind-raise", "blind-lower", "blind-ante", "blind-break"}
+				hc.late = []string{"none", "blind-raise", "blind-ante", "blind-break"}
 				hc.lines = []string{"foldout", "checkdown"}
 				hc.decks = []string{"asc"}
 			}
